@@ -2,6 +2,7 @@ package main
 
 import (
 	"fmt"
+	"strings"
 	"sync"
 
 	"github.com/privacybydesign/gabi"
@@ -226,6 +227,51 @@ func genC07(g *Rng, tier string, emit func(Op)) {
 			doOp(col, creds, ir, g.intn(600), ctx, nonce, nil)
 		}
 		emit(col.op("sequential"))
+	}
+	// every short history over {P = prepare the cache, U = somebody else is revoked and the witness
+	// is updated, D = proof with non-revocation, d = proof without} on one credential: what a
+	// prepared commitment goes through between being made and being consumed
+	maxLen := 4
+	if tier == "thorough" {
+		maxLen = 6
+	}
+	var scripts []string
+	var rec func(prefix string)
+	rec = func(prefix string) {
+		if strings.Count(prefix, "D") >= 2 {
+			scripts = append(scripts, prefix) // reuse needs two proofs that consume a commitment
+		}
+		if len(prefix) == maxLen {
+			return
+		}
+		for _, c := range "PUDd" {
+			rec(prefix + string(c))
+		}
+	}
+	rec("")
+	for _, script := range scripts {
+		ir := newIssuerRev(g, kp)
+		w := ir.witnessFor()
+		cred := issueCred(kp, randSecret(g), []*big.Int{g.bits(100), w.E, g.bits(60)})
+		cred.NonRevocationWitness = w
+		col := &collector{}
+		ctx, nonce := g.bits(256), g.bits(80)
+		for _, c := range script {
+			switch c {
+			case 'P':
+				_ = cred.NonrevPrepareCache()
+			case 'U':
+				ir.revoke(revPrime(g))
+				idx := cred.NonRevocationWitness.SignedAccumulator.Accumulator.Index
+				_ = cred.NonRevocationWitness.Update(kp.pk, ir.updateFrom(idx+1))
+			case 'D', 'd':
+				p, err := cred.CreateDisclosureProof([]int{1}, nil, c == 'D', ctx, nonce)
+				if err == nil {
+					col.addProofD(col.newSession(), p, cred)
+				}
+			}
+		}
+		emit(col.op("script-" + script))
 	}
 	// the process-wide fast generator under contention: randomisers drawn concurrently are distinct
 	for _, ng := range []int{4, 32} {
